@@ -151,7 +151,22 @@ def rule_uri(model, rep):
     fp = model.func(T, "TOTP._from_parsed_uri")
     ft = ast.unparse(fp)
     rep.check("label = unquote(label[1:])" in ft, R, site("TOTP._from_parsed_uri"), "label = unquote(label[1:])", "the path label is unquoted exactly once")
-    loop = [n for n in walk_no_nested(fp) if isinstance(n, ast.For) and "parse_qsl(result.query)" in qtext(n.iter)]
+    loop = [n for n in walk_no_nested(fp) if isinstance(n, ast.For) and qtext(n.iter).loose("parse_qsl(result.query")]
+    # blank values must be kept, otherwise `secret=&secret=K` or `issuer=` next to an issuer prefix slip past the duplicate / conflict checks
+    pq = [c for n in loop for c in ast.walk(n.iter) if isinstance(c, ast.Call) and ast.unparse(c.func) == "parse_qsl"]
+    kb = bool(pq) and any(k.arg == "keep_blank_values" and ast.unparse(k.value) == "True" for k in pq[0].keywords)
+    rep.check(kb, R, site("TOTP._from_parsed_uri") + " blank values", ast.unparse(pq[0]) if pq else "<none>", "the query is split with keep_blank_values=True, so a parameter repeated with an empty value is still seen as a duplicate",
+              witness="from_uri('otpauth://totp/a?secret=&secret=K') is accepted although `secret` occurs twice; '...:a?secret=K&issuer=' ignores the conflicting empty issuer")
+    # incomplete sources are refused with ValueError, never with an assertion
+    ad = model.func(T, "TOTP._adapt_uri_params")
+    asserts = [ast.unparse(a.test) for a in walk_no_nested(ad) if isinstance(a, ast.Assert)]
+    rep.check(not asserts, R, site("TOTP._adapt_uri_params") + " no assert", f"assert {asserts[0]}" if asserts else "no assertion on URI data", "a URI without a usable label is refused with ValueError (an assert is AssertionError, or nothing under -O)",
+              witness="from_uri('otpauth://totp/Example:?secret=K&issuer=Example') raises AssertionError; TOTP(key, label=' ', issuer='Example').to_uri() cannot be loaded back")
+    init = model.func(T, "TOTP.__init__")
+    empty = [n for n in walk_no_nested(init) if isinstance(n, ast.If) and ast.unparse(n.test) in ("not self.key", "len(self.key) == 0") and n.body and isinstance(n.body[-1], ast.Raise) and "ValueError" in ast.unparse(n.body[-1])]
+    rep.check(bool(empty), R, site("TOTP.__init__") + " empty key", "if not self.key: raise ValueError" if empty else "decoded key is not checked for emptiness (the size check only warns)",
+              "a secret that is empty after separators and padding are stripped is refused like a missing one",
+              witness="from_uri('otpauth://totp/alice?secret=%20') / from_dict({'v':1,'type':'totp','key':'----'}) yield an object with key b'' whose own to_uri() output cannot be loaded")
     ok = len(loop) == 1
     if ok:
         lb = [ast.unparse(x) for x in loop[0].body]
